@@ -92,20 +92,26 @@ def is_race(stderr):
     return 'WARNING: DATA RACE' in stderr
 
 def race_signature(prop, stderr):
-    # first two repo frames of the first report
+    """Root-cause class of a race report: the source files (inside the repo, outside zzverif) of the
+    innermost repo frame of the two conflicting accesses."""
     i = stderr.find('WARNING: DATA RACE')
-    blk = stderr[i:i + 6000]
-    fr = []
-    for fm in re.finditer(r'^\s+(github\.com/a-h/templ/[^\s(]+(?:\([^)]*\))?[^\s(]*)\(', blk, re.M):
-        fn = fm.group(1)
-        if '/zzverif/' in fn:
-            continue
-        fn = fn.replace('github.com/a-h/templ/', '')
-        if fn not in fr:
-            fr.append(fn)
-        if len(fr) == 2:
+    blk = stderr[i:i + 12000]
+    j = blk.find('Goroutine ')
+    if j > 0:
+        blk = blk[:j]
+    parts = re.split(r'\n\s*Previous ', blk, maxsplit=1)
+    files = []
+    for part in parts[:2]:
+        for fm in re.finditer(r'^\s+(/\S+?)/src/(\S+\.go):\d+', part, re.M):
+            root, rel = fm.group(1), fm.group(2)
+            if '/go1.' in root or rel.startswith('zzverif/'):
+                continue
+            if '/verif-scratch' not in root and 'VP_' not in root and not os.path.exists(os.path.join(root, 'src', 'go.mod')):
+                continue
+            files.append(rel)
             break
-    return '%s/race:%s' % (prop, '|'.join(fr) or 'unknown')
+    files = sorted(set(files))
+    return '%s/race:%s' % (prop, '|'.join(files) or 'unknown')
 
 class Batch:
     def __init__(self, ctx, prop, tier, seed, params, binary, extra_env=None, label='main'):
@@ -365,6 +371,7 @@ def _check(ctx, prop, tier, cfg, tcfg, seed, params, known, t_start):
     all_results, viol_map, infra = [], {}, []
     stage_info = []
     guard_n = 0
+    guard_mism = []
     for st in stages:
         stp = dict(params)
         stp.update(st.get('params', {}))
@@ -395,9 +402,7 @@ def _check(ctx, prop, tier, cfg, tcfg, seed, params, known, t_start):
             n, mism = determinism_guard(ctx, cfg, b, binary, prop, tier, seed, stp, extra_env)
             guard_n += n
             if mism:
-                print('NONDETERMINISM property=%s stage=%s runs=%s' % (prop, st['name'], mism[:5]))
-                log('determinism guard failed; this is an infrastructure failure, not a violation')
-                return 2
+                guard_mism.append((st['name'], mism[:5]))
         stage_info.append({'stage': st['name'], 'runs': len(b.results), 'wall_s': round(b.wall, 2)})
     if not all_results:
         log('no runs completed: ' + '; '.join(infra)[:3000])
@@ -410,37 +415,44 @@ def _check(ctx, prop, tier, cfg, tcfg, seed, params, known, t_start):
     # --- violations: shrink one representative per signature
     exit_code = 0
     reported = []
+    unconfirmed = []
     os.makedirs(os.path.join(VERIF, 'replays'), exist_ok=True)
     for sig in sorted(viol_map):
         occ = viol_map[sig]
         kn = known_match(known, prop, sig)
-        prim = [o for o in occ if o.get('primary')] or occ
+        prim = sorted([o for o in occ if o.get('primary')] or occ, key=lambda o: o['run'])
         o = prim[0]
         if kn:
             print('KNOWN-FINDING: property=%s %s [%s] (%d runs, e.g. run %d)' % (prop, kn.get('what', ''), sig, len(occ), o['run']))
             reported.append({'sig': sig, 'known': True, 'count': len(occ)})
             continue
-        tape = o.get('tape')
-        st = o['stage']
-        if tape is None:
-            tape, sig2, err = stream_tape_for_seed(ctx, o['binary'], prop, tier, seed, o['run'], o['params'], o['env'])
-            if sig2 != sig:
-                # could not confirm alone: report as infrastructure trouble rather than guess
-                if sig2 is None:
-                    log('INFRA: run %d died in the batch (%s) but not when re-run alone' % (o['run'], sig))
-                    return 2
-                sig_confirm = sig2
+        confirmed = None
+        for o in prim[:6]:
+            tape = o.get('tape')
+            if tape is None:
+                tape, sig2, err = stream_tape_for_seed(ctx, o['binary'], prop, tier, seed, o['run'], o['params'], o['env'])
             else:
-                sig_confirm = sig
-        else:
-            sig_confirm, _, _ = run_tape(ctx, o['binary'], prop, tier, seed, o['run'], o['params'], tape, o['env'])
-        if sig_confirm != sig and not (tape is None):
-            # must reproduce from its own tape in a fresh process
-            if sig_confirm is None:
-                print('NONDETERMINISM property=%s run=%d: violation %s did not recur on replay' % (prop, o['run'], sig))
-                return 2
+                sig2, _, _ = run_tape(ctx, o['binary'], prop, tier, seed, o['run'], o['params'], tape, o['env'])
+            if sig2 == sig:
+                o['tape'] = tape
+                confirmed = o
+                break
+        if confirmed is None:
+            # seen inside a batch process but never alone in a fresh process: not replayable,
+            # therefore reported as infrastructure trouble, never as a violation
+            unconfirmed.append((sig, len(occ), prim[0]['run']))
+            continue
+        o = confirmed
+        tape = o['tape']
+        st = o['stage']
+        n_unknown = sum(1 for r in reported if not r.get('known'))
+        if n_unknown >= 6:
+            print('VIOLATION property=%s replay=none (further signature %s, %d runs; not minimised)' % (prop, sig, len(occ)))
+            reported.append({'sig': sig, 'known': False, 'count': len(occ)})
+            exit_code = 1
+            continue
         mintape, tried = shrink(ctx, o['binary'], prop, tier, seed, o['run'], o['params'], tape, sig, o['env'],
-                                budget_s=tcfg.get('shrink_budget_s', 120))
+                                budget_s=tcfg.get('shrink_budget_s', 120) if n_unknown == 0 else 25)
         sigm, recm, errm = run_tape(ctx, o['binary'], prop, tier, seed, o['run'], o['params'], mintape, o['env'])
         if sigm != sig:
             mintape = tape
@@ -458,6 +470,13 @@ def _check(ctx, prop, tier, cfg, tcfg, seed, params, known, t_start):
         reported.append({'sig': sig, 'known': False, 'count': len(occ), 'replay': rp})
         exit_code = 1
     write_evidence(prop, tier, cfg, tcfg, seed, all_results, stage_info, reported, guard_n, capped, time.time() - t_start, ctx)
+    if exit_code == 0 and (unconfirmed or guard_mism):
+        for sig, n, run in unconfirmed:
+            log('INFRA: %s seen in %d batch runs (e.g. run %d) but not when replayed alone in a fresh process' % (sig, n, run))
+        for stn, mism in guard_mism:
+            print('NONDETERMINISM property=%s stage=%s runs=%s' % (prop, stn, mism))
+        log('runs are not a function of their seed; this is an infrastructure failure, not a violation')
+        return 2
     return exit_code
 
 def tail_of_crash(err):
